@@ -74,6 +74,9 @@ class CoopRLock:
         return self.owner is not None
 
 
+STALL_SECONDS = 60
+
+
 class Point:
     __slots__ = ("running", "order", "choice", "running_enabled", "where")
 
@@ -82,7 +85,7 @@ class Point:
 
 
 class Scheduler:
-    def __init__(self, bodies, sched_files, prefix=(), horizon=50000, opcode_funcs=(), clamp=False):
+    def __init__(self, bodies, sched_files, prefix=(), horizon=50000, opcode_funcs=(), clamp=False, only_quals=()):
         self.bodies = bodies
         self.n = len(bodies)
         self.files = tuple(sched_files)
@@ -90,6 +93,7 @@ class Scheduler:
         self.clamp = clamp  # random walks: out-of-range choices wrap instead of diverging
         self.horizon = horizon
         self.opcode_funcs = set(opcode_funcs)
+        self.only_quals = tuple(only_quals)  # window: scheduling points only inside functions whose qualified name starts so
         self.points = []
         self.state = {i: "ready" for i in range(self.n)}
         self.waiting_on = {}
@@ -99,6 +103,7 @@ class Scheduler:
         self.results = [None] * self.n
         self.errors = [None] * self.n
         self.deadlock = False
+        self.stuck = False
         self.abort = False
         self.horizon_hit = False
         self.divergence = None
@@ -189,6 +194,8 @@ class Scheduler:
             fn = frame.f_code.co_filename
             for f in self.files:
                 if fn.endswith(f):
+                    if self.only_quals and not getattr(frame.f_code, "co_qualname", frame.f_code.co_name).startswith(self.only_quals):
+                        return None
                     if frame.f_code.co_name in self.opcode_funcs:
                         frame.f_trace_opcodes = True
                     return self._local_trace
@@ -229,7 +236,12 @@ class Scheduler:
             first = None
         if first is not None:
             self.sems[first].release()
-            self.main_sem.acquire()
+            if not self.main_sem.acquire(timeout=STALL_SECONDS):
+                # No thread came back to the scheduler: one of them is blocked on something the scheduler does not own
+                # (a real lock taken by the code under test while its holder is parked).  With every other thread parked
+                # that wait can never end: a deadlock of the program under this schedule, reported as such.
+                self.deadlock = True
+                self.stuck = True
         # wake everything that is still parked so the threads can unwind
         if self.abort or self.deadlock:
             self.abort = True
@@ -256,7 +268,7 @@ class Scheduler:
 
 
 def explore(make_bodies, sched_files, bound, on_execution, opcode_funcs=(), max_executions=None, setup=None, shard=None,
-            verify_every=200):
+            verify_every=200, only_quals=()):
     """Enumerate every schedule with at most `bound` preemptions.
     make_bodies() -> (bodies, ctx) builds fresh thread bodies (fresh classes / state) per execution;
     on_execution(sched, ctx) judges one finished execution.  Returns dict of counters."""
@@ -267,7 +279,7 @@ def explore(make_bodies, sched_files, bound, on_execution, opcode_funcs=(), max_
         if setup:
             setup()
         b0, _ = make_bodies()
-        Scheduler(b0, sched_files, prefix=[], opcode_funcs=opcode_funcs).run()
+        Scheduler(b0, sched_files, prefix=[], opcode_funcs=opcode_funcs, only_quals=only_quals).run()
         stats["warmup_executions"] = 1
     stack = [[]]
     while stack:
@@ -275,7 +287,7 @@ def explore(make_bodies, sched_files, bound, on_execution, opcode_funcs=(), max_
         if setup:
             setup()
         bodies, ctx = make_bodies()
-        s = Scheduler(bodies, sched_files, prefix=prefix, opcode_funcs=opcode_funcs)
+        s = Scheduler(bodies, sched_files, prefix=prefix, opcode_funcs=opcode_funcs, only_quals=only_quals)
         s.run()
         if s.divergence:
             raise ReplayDivergence(s.divergence)
@@ -298,7 +310,7 @@ def explore(make_bodies, sched_files, bound, on_execution, opcode_funcs=(), max_
             if setup:
                 setup()
             b2, _ = make_bodies()
-            s2 = Scheduler(b2, sched_files, prefix=s.choices(), opcode_funcs=opcode_funcs)
+            s2 = Scheduler(b2, sched_files, prefix=s.choices(), opcode_funcs=opcode_funcs, only_quals=only_quals)
             s2.run()
             t1 = [(p.running, p.order, p.where) for p in s.points]
             t2 = [(p.running, p.order, p.where) for p in s2.points]
